@@ -201,7 +201,50 @@ def h_session(ctx, n=3, kind='T1', side='long', leverage=2, symfee=True, sym_fro
     trade_obligations(ctx, rec, (fee, leverage, w0))
 
 
-JOBFN = {'h_session': h_session}
+def h_relaxed_close(ctx, side='long', steps=2):
+    """binary64 side of the position size (decimal quantities that are not exactly representable): a position of Q is opened and
+    reduced by quantities whose DECIMAL total is Q; quantities are relaxed floats (every plain arithmetic operation exact*(1+d),
+    |d| <= 2^-53; jesse's decimal helpers exact).  The cycle must close: size exactly 0, position closed, exactly one trade."""
+    from .apih import ApiSession
+    cfg = S.config_dict('futures', leverage=2, fee=0.0, balance=1e9)
+    api = ApiSession(cfg, symbols=(S.SYMBOL,), price0=100.0)
+    p = api.positions[S.SYMBOL]
+    qs = [sx.relax(ctx.real('q%d' % i, 0.001, 100)) for i in range(steps)]
+    Q = sx.relax(ctx.real('Q', 0.001, 1000))
+    if sx.is_sym(Q):
+        total = sx.real_term(qs[0])
+        for q in qs[1:]:
+            total = total + sx.real_term(q)
+        ctx.constrain(sx.SymReal(sx.real_term(Q)) == sx.SymReal(total))
+    else:
+        from decimal import Decimal
+        ctx.constrain(Q == float(sum(Decimal(str(q)) for q in qs)))  # the decimal total, as a user would type it
+    opening, closing = ('buy', 'sell') if side == 'long' else ('sell', 'buy')
+    o = api.submit(S.SYMBOL, opening, 'MARKET', Q, 100.0, False)
+    o.execute()
+    for q in qs:
+        api.tick()
+        r = api.submit(S.SYMBOL, closing, 'MARKET', q, 100.0, True)
+        r.execute()
+    ctx.prove(p.qty == 0, 'C06:position-size-is-zero-after-fills-that-net-to-zero(binary64)', {'side': side, 'steps': steps})
+    ctx.prove(bool(p.is_close), 'C06:cycle-closes-after-fills-that-net-to-zero(binary64)', {'side': side, 'steps': steps})
+    ctx.prove(len(api.store.completed_trades.trades) == 1, 'C06:cycle-closes-after-fills-that-net-to-zero(binary64)', {'side': side, 'trades': len(api.store.completed_trades.trades)})
+    ctx.event('relaxed-cycle')
+
+
+_DECIMALS = [0.1, 0.2, 0.3, 0.7, 0.8, 0.062, 0.937, 1.1, 2.2, 0.01, 0.05, 0.35, 4.35, 0.57]
+
+
+def _binary64_witnesses(steps):
+    from decimal import Decimal
+    import itertools
+    for qs in itertools.product(_DECIMALS, repeat=steps):
+        m = {'q%d' % i: q for i, q in enumerate(qs)}
+        m['Q'] = float(sum(Decimal(str(q)) for q in qs))
+        yield m
+
+
+JOBFN = {'h_session': h_session, 'h_relaxed_close': h_relaxed_close}
 
 
 def _jobs(tier):
@@ -221,6 +264,11 @@ def _jobs(tier):
         add(n=3, kind='T3u', side='long', sym_from=2)
         add(n=3, kind='T9', side='long')
     else:
+        pass
+    for side in ('long', 'short'):
+        for steps in ((2,) if tier == 'quick' else (2, 3)):
+            jobs.append(Job('relaxed_%s_%d' % (side, steps), h_relaxed_close, {'side': side, 'steps': steps}, {'nlsat_fallback': True, 'prove_timeout_ms': 20000}))
+    if tier != 'quick':
         for side in ('long', 'short'):
             for kind in ('T1', 'T2', 'T3', 'T3u', 'T3o', 'T5', 'T0', 'T8f', 'T9'):
                 add(n=3, kind=kind, side=side)
@@ -241,7 +289,7 @@ def setup(tier, seed):
                        'through the average-cost model of C03, giving the expected hook per fill, the expected position size, and the expected closed '
                        'trade of each open..close cycle; z3 proves hook sequence/arguments, every ClosedTrade field (side, qty, qty-weighted entry and '
                        'exit over effective fills, times, order list) and, in futures, sum(trade.pnl) == wallet change.',
-        'bounds': {'templates': sorted({j.kwargs['kind'] for j in jobs}), 'candles': '1 concrete + 2 (3) symbolic', 'fee': 'symbolic in [0,0.01]', 'quantities': 'concrete'},
+        'bounds': {'templates': sorted({j.kwargs['kind'] for j in jobs if 'kind' in j.kwargs}), 'candles': '1 concrete + 2 (3) symbolic', 'fee': 'symbolic in [0,0.01]', 'quantities': 'concrete'},
         'outside': ['symbolic quantities', 'spot sessions (cash-account trade log)', 'more than one symbol', 'float rounding'],
         'stubs': list(jstubs.INSTALLED),
         'assumptions': ['floats as reals; weighted prices compared cross-multiplied; wallet identity within 1e-9 of the starting balance'],
@@ -261,9 +309,21 @@ def signature(v):
 
 
 def make_witness(v):
-    return {'fn': 'h_session', 'kwargs': v['bounds'], 'label': v['label'], 'model': v['model'], 'info': v.get('info')}
+    fn = 'h_relaxed_close' if v['job'].startswith('relaxed_') else 'h_session'
+    return {'fn': fn, 'kwargs': v['bounds'], 'label': v['label'], 'model': v['model'], 'info': v.get('info')}
 
 
 def replay(w):
     S.install_monitors()
-    return replay_harness(JOBFN[w['fn']], w['kwargs'], w['model'], w['label'])
+    ok, msg = replay_harness(JOBFN[w['fn']], w['kwargs'], w['model'], w['label'])
+    if ok or w['fn'] != 'h_relaxed_close':
+        return ok, msg
+    # a violation of the relaxed-float model leaves the rounding errors free: look for decimal quantities whose real binary64
+    # rounding realises it before it is reported
+    n = 0
+    for cand in _binary64_witnesses(int(w['kwargs'].get('steps', 2))):
+        n += 1
+        ok2, msg2 = replay_harness(JOBFN[w['fn']], w['kwargs'], cand, w['label'])
+        if ok2:
+            return True, 'binary64 witness %r: %s' % (cand, msg2)
+    return False, msg + ' (and no binary64 witness among %d decimal candidates)' % n
